@@ -1,3 +1,131 @@
 import Driver.Common
-/-! Model driver for C01 — not built yet. -/
-def main (_args : List String) : IO Unit := pure ()
+import Logrange.Model.WireRT
+import Logrange.Model.JournalW
+import Logrange.Model.WriteLoopM
+/-! Model driver for C01 (acknowledged writes are read back intact, once, in order). Requests
+(byte strings hex, `-` = empty; timestamps as the decimal uint64 image of the int64):
+
+* `ev.marshal <ts> <msg> <fields>`                → `<record> <writableSize>`
+* `ev.unmarshal <prevFields> <buf>`               → `ok <n> <ts> <msg> <fields>` | `err` | `panic`
+* `wp.encode <tags> <flds> <n> (<ts> <msg> <etags> <efields>)*` → `<packet>`
+* `wp.decode <packet> <k> (<text> <parsed|!>)*`    → `ok <tags> <n> (<ts>/<msg>/<fields>)*` | `err` | `panic` | `unknown-text`
+      the table is `field.NewFieldsFromKVString` on the texts of this packet (`!` = error), computed by the real code
+* `wp.spec <flds> <n> (<ts> <msg> <etags> <efields>)* <k> (<text> <parsed|!>)*` → SPEC: `ok <n> (<ts>/<msg>/<fields>)*` | `reject`
+* `w.reset <maxChunkSize>`                        → `ok`           (all partitions empty)
+* `w.write <part> <n> (<ts> <msg> <fields>)*`     → `calls=[first last cid min max; …] start=c:i end=c:i err=0|1`
+* `w.wp <part> <packet> <k> (<text> <parsed|!>)*`  → server side of one RPC write: `rejected` | `panic` | `n=<events> calls=… err=…`
+* `w.read <part> <maxRecordSize>`                 → `ok <n> (<ts>/<msg>/<fields>)*` | `toosmall <k>` (the k-th record, 0-based, exceeds the read buffer)
+* `w.layout <part>`                               → `<count of chunk 1> <count of chunk 2> …`
+-/
+open Go Driver Logrange Logrange.WireRT Logrange.JournalW Logrange.WriteLoopM
+
+structure St where
+  maxSize : Nat := 1
+  parts : List (Nat × Journal) := []
+
+def St.get (s : St) (p : Nat) : Journal := ((s.parts.find? (·.1 == p)).map (·.2)).getD []
+def St.set (s : St) (p : Nat) (j : Journal) : St :=
+  { s with parts := (p, j) :: s.parts.filter (·.1 != p) }
+
+def showEv (e : Event) : String := s!"{e.ts}/{hex e.msg}/{hex e.fields}"
+def showEvs (es : List Event) : String :=
+  if es.isEmpty then s!"{es.length}" else s!"{es.length} " ++ " ".intercalate (es.map showEv)
+
+def unknownMark : Bytes := ofAscii "\x01?unknown-text?\x01"
+
+def hasMark (b : Bytes) : Bool :=
+  let n := unknownMark.length
+  b.length ≥ n && ((List.range (b.length - n + 1)).any (fun i => (b.drop i).take n == unknownMark))
+
+/-- parse table: `(text, some parsed | none)`; a text that is not in the table parses to the unknown mark -/
+def mkParse (tbl : List (Bytes × Option Bytes)) (t : Bytes) : Option Bytes :=
+  if t.isEmpty then some [] else
+  match tbl.find? (·.1 == t) with
+  | some (_, r) => r
+  | none => some unknownMark
+
+partial def readTable : Nat → List String → List (Bytes × Option Bytes)
+  | 0, _ => []
+  | k+1, t :: p :: r => (unhex t, if p == "!" then none else some (unhex p)) :: readTable k r
+  | _, _ => []
+
+partial def readWEvents : Nat → List String → List WEvent × List String
+  | 0, r => ([], r)
+  | k+1, ts :: m :: t :: f :: r =>
+    let (es, r') := readWEvents k r
+    (⟨ts.toNat!, unhex m, unhex t, unhex f⟩ :: es, r')
+  | _, r => ([], r)
+
+partial def readEvents : Nat → List String → List Event
+  | 0, _ => []
+  | k+1, ts :: m :: f :: r => ⟨ts.toNat!, unhex m, unhex f⟩ :: readEvents k r
+  | _, _ => []
+
+def showPos : Option (Nat × Nat) → String
+  | some (a, b) => s!"{a}:{b}"
+  | none => "-"
+
+def showOut (o : WOut) : String :=
+  "calls=[" ++ "; ".intercalate (o.calls.map (fun c => s!"{c.first} {c.last} {c.cid} {c.minTs} {c.maxTs}")) ++
+    "] start=" ++ showPos o.start ++ " end=" ++ showPos o.endp ++ " err=" ++ (if o.err then "1" else "0")
+
+/-- unfiltered read of a partition: every record through `LogEvent.Unmarshal` on a released event (`prev = ""`);
+a record longer than the chunk iterator's buffer (`MaxRecordSize`) ends the read with `ErrBufferTooSmall`. -/
+def readBack (j : Journal) (maxRec : Nat) : String :=
+  let recs := readAll j
+  match recs.findIdx? (fun r => r.length > maxRec) with
+  | some k => s!"toosmall {k}"
+  | none =>
+    let evs := recs.map (fun r => match Event.unmarshal [] r with | .ok (_, e) => some e | _ => none)
+    if evs.any (·.isNone) then "undecodable" else "ok " ++ showEvs (evs.filterMap id)
+
+def step (s : St) (toks : List String) : St × String :=
+  match toks with
+  | ["ev.marshal", ts, m, f] =>
+    let e : Event := ⟨ts.toNat!, unhex m, unhex f⟩
+    (s, s!"{hex e.marshal} {e.writableSize}")
+  | ["ev.unmarshal", prev, b] =>
+    (s, match Event.unmarshal (unhex prev) (unhex b) with
+        | .ok (n, e) => s!"ok {n} {e.ts} {hex e.msg} {hex e.fields}"
+        | .err => "err"
+        | .panic => "panic")
+  | "wp.encode" :: tags :: flds :: n :: rest =>
+    let (evs, _) := readWEvents n.toNat! rest
+    (s, hex (wpEncode (unhex tags) (unhex flds) evs))
+  | "wp.decode" :: b :: k :: rest =>
+    let parse := mkParse (readTable k.toNat! rest)
+    (s, match wpDrain parse (unhex b) with
+        | .ok (tags, es) =>
+          if es.any (fun e => hasMark e.fields) then "unknown-text" else s!"ok {hex tags} " ++ showEvs es
+        | .err => "err"
+        | .panic => "panic")
+  | "wp.spec" :: flds :: n :: rest =>
+    let (evs, r') := readWEvents n.toNat! rest
+    match r' with
+    | k :: tbl =>
+      let parse := mkParse (readTable k.toNat! tbl)
+      (match parse (unhex flds) with
+       | none => (s, "reject")
+       | some wf =>
+         let sp := evs.map (storedSpec parse wf)
+         if sp.any (·.isNone) then (s, "reject") else (s, "ok " ++ showEvs (sp.filterMap id)))
+    | [] => (s, "bad-op")
+  | ["w.reset", m] => ({ maxSize := m.toNat!, parts := [] }, "ok")
+  | "w.write" :: p :: n :: rest =>
+    let evs := readEvents n.toNat! rest
+    let (j', o) := serviceWrite s.maxSize (s.get p.toNat!) (evs.map recOf)
+    (s.set p.toNat! j', showOut o)
+  | "w.wp" :: p :: b :: k :: rest =>
+    let parse := mkParse (readTable k.toNat! rest)
+    (match wpDrain parse (unhex b) with
+     | .ok (_, es) =>
+       if es.any (fun e => hasMark e.fields) then (s, "unknown-text") else
+       let (j', o) := serviceWrite s.maxSize (s.get p.toNat!) (es.map recOf)
+       (s.set p.toNat! j', s!"n={es.length} " ++ showOut o)
+     | .err => (s, "rejected")
+     | .panic => (s, "panic"))
+  | ["w.read", p, mr] => (s, readBack (s.get p.toNat!) mr.toNat!)
+  | ["w.layout", p] => (s, " ".intercalate ((s.get p.toNat!).map (fun c => toString c.recs.length)))
+  | _ => (s, "bad-op")
+
+def main (args : List String) : IO Unit := Driver.run step ({} : St) args
